@@ -15,6 +15,7 @@ RULE = ("full Cartesian product: cycles (n elements x durations x colours, all a
         "t in [-2T-3, 3T+5+offset]; a case (cycle, offset, t) is non-trivial when the cycle has >=2 distinct colours "
         "(otherwise every answer is the same colour); distinct by construction")
 ASSUMPTIONS = ["durations are positive ints and offset >= 0 as the statement requires",
+               "the alternative routes to a cycle (append, setters, copies, comparisons, numpy offsets, shared lists, active flag) are run for n <= 3 elements",
                "reference = colour list expanded by duration, index (t - offset) mod T with Python's non-negative mod"]
 
 
@@ -53,63 +54,9 @@ def _tclass(t, off, T, bounds):
     return "boundary" if r in bounds else "inside"
 
 
-def _check_case(durs, cols, off, res, light_too=True):
+def _routes(durs, cols, off, res, case0, ts, T, expanded, mk):
     from commonroad.scenario.traffic_light import TrafficLightCycle, TrafficLightCycleElement, TrafficLight
     import numpy as np
-    T = sum(durs)
-    expanded = [c for c, d in zip(cols, durs) for _ in range(d)]
-    bounds = set()
-    acc = 0
-    for d in durs:
-        bounds.add(acc); bounds.add(acc + d - 1); acc += d
-    ts = list(range(-2 * T - 3, 3 * T + 6 + off))
-
-    def mk():
-        return TrafficLightCycle([TrafficLightCycleElement(c, d) for c, d in zip(cols, durs)], time_offset=off)
-
-    shared_up, shared_down = mk(), mk()
-    light = TrafficLight(7, np.array([0.0, 0.0]), mk())
-    nontriv = len(set(cols)) > 1
-    case0 = {"durs": list(durs), "cols": [c.name for c in cols], "offset": off}
-    for order, cyc in (("asc", shared_up), ("desc", shared_down)):
-        seq = ts if order == "asc" else ts[::-1]
-        for t in seq:
-            exp = expanded[(t - off) % T]
-            res.evals += 1
-            res.transitions += 1
-            try:
-                got = cyc.get_state_at_time_step(t)
-            except Exception as e:  # noqa
-                res.violation(f"C17|n={len(durs)}|t-class:{_tclass(t, off, T, bounds)}|raises:{type(e).__name__}",
-                              f"{case0} t={t}: {e!r}", dict(case0, t=t))
-                continue
-            if got != exp:
-                res.violation(f"C17|n={len(durs)}|t-class:{_tclass(t, off, T, bounds)}|wrong-state",
-                              f"{case0} t={t} order={order}: got {got} expected {exp}", dict(case0, t=t))
-            res.outcomes[got.name if hasattr(got, "name") else str(got)] += 1
-    for t in ts:
-        exp = expanded[(t - off) % T]
-        res.evals += 2
-        res.transitions += 2
-        try:
-            fresh = mk().get_state_at_time_step(t)
-            viaLight = light.get_state_at_time_step(t)
-        except Exception as e:
-            res.violation(f"C17|n={len(durs)}|t-class:{_tclass(t, off, T, bounds)}|raises:{type(e).__name__}",
-                          f"{case0} t={t}: {e!r}", dict(case0, t=t))
-            continue
-        if fresh != exp:
-            res.violation(f"C17|n={len(durs)}|t-class:{_tclass(t, off, T, bounds)}|wrong-state",
-                          f"{case0} t={t} fresh: got {fresh} expected {exp}", dict(case0, t=t))
-        if viaLight != exp:
-            res.violation(f"C17|n={len(durs)}|t-class:{_tclass(t, off, T, bounds)}|light-disagrees-with-cycle",
-                          f"{case0} t={t}: TrafficLight gives {viaLight}, expected {exp}", dict(case0, t=t))
-        # periodicity
-        try:
-            if mk().get_state_at_time_step(t + T) != fresh:
-                res.violation(f"C17|n={len(durs)}|not-periodic", f"{case0} t={t}", dict(case0, t=t))
-        except Exception:
-            pass
     # other ways to arrive at the same cycle definition: (a) an empty cycle filled by appending to its element list, while a second cycle is filled
     # the same way with the reversed definition; (b) elements constructed equal to each other (also across two cycles) and then edited through the
     # state / duration setters.  The oracle is the definition the caller supplied, not what the object reports about itself.
@@ -265,6 +212,68 @@ def _check_case(durs, cols, off, res, light_too=True):
                     break
     except Exception as e:
         res.violation(f"C17|n={len(durs)}|active-flag|raises:{type(e).__name__}", repr(e), dict(case0))
+
+def _check_case(durs, cols, off, res, light_too=True):
+    from commonroad.scenario.traffic_light import TrafficLightCycle, TrafficLightCycleElement, TrafficLight
+    import numpy as np
+    T = sum(durs)
+    expanded = [c for c, d in zip(cols, durs) for _ in range(d)]
+    bounds = set()
+    acc = 0
+    for d in durs:
+        bounds.add(acc); bounds.add(acc + d - 1); acc += d
+    ts = list(range(-2 * T - 3, 3 * T + 6 + off))
+
+    def mk():
+        return TrafficLightCycle([TrafficLightCycleElement(c, d) for c, d in zip(cols, durs)], time_offset=off)
+
+    shared_up, shared_down = mk(), mk()
+    light = TrafficLight(7, np.array([0.0, 0.0]), mk())
+    nontriv = len(set(cols)) > 1
+    case0 = {"durs": list(durs), "cols": [c.name for c in cols], "offset": off}
+    for order, cyc in (("asc", shared_up), ("desc", shared_down)):
+        seq = ts if order == "asc" else ts[::-1]
+        for t in seq:
+            exp = expanded[(t - off) % T]
+            res.evals += 1
+            res.transitions += 1
+            try:
+                got = cyc.get_state_at_time_step(t)
+            except Exception as e:  # noqa
+                res.violation(f"C17|n={len(durs)}|t-class:{_tclass(t, off, T, bounds)}|raises:{type(e).__name__}",
+                              f"{case0} t={t}: {e!r}", dict(case0, t=t))
+                continue
+            if got != exp:
+                res.violation(f"C17|n={len(durs)}|t-class:{_tclass(t, off, T, bounds)}|wrong-state",
+                              f"{case0} t={t} order={order}: got {got} expected {exp}", dict(case0, t=t))
+            res.outcomes[got.name if hasattr(got, "name") else str(got)] += 1
+    for t in ts:
+        exp = expanded[(t - off) % T]
+        res.evals += 2
+        res.transitions += 2
+        try:
+            fresh = mk().get_state_at_time_step(t)
+            viaLight = light.get_state_at_time_step(t)
+        except Exception as e:
+            res.violation(f"C17|n={len(durs)}|t-class:{_tclass(t, off, T, bounds)}|raises:{type(e).__name__}",
+                          f"{case0} t={t}: {e!r}", dict(case0, t=t))
+            continue
+        if fresh != exp:
+            res.violation(f"C17|n={len(durs)}|t-class:{_tclass(t, off, T, bounds)}|wrong-state",
+                          f"{case0} t={t} fresh: got {fresh} expected {exp}", dict(case0, t=t))
+        if viaLight != exp:
+            res.violation(f"C17|n={len(durs)}|t-class:{_tclass(t, off, T, bounds)}|light-disagrees-with-cycle",
+                          f"{case0} t={t}: TrafficLight gives {viaLight}, expected {exp}", dict(case0, t=t))
+        # periodicity
+        try:
+            if mk().get_state_at_time_step(t + T) != fresh:
+                res.violation(f"C17|n={len(durs)}|not-periodic", f"{case0} t={t}", dict(case0, t=t))
+        except Exception:
+            pass
+    # The further routes below (a)-(g) are run for every cycle with up to three elements; four-element cycles (thorough tier) get the construction,
+    # light, periodicity and cycle-replacement checks only (the routes do not depend on the number of elements beyond what n <= 3 exercises).
+    if len(durs) <= 3:
+        _routes(durs, cols, off, res, case0, ts, T, expanded, mk)
     # history part of "TrafficLight agrees with its cycle": the light was queried at every t above; now its cycle is
     # replaced through the public setter (reversed colours, other offset) and every t is queried again
     cols2, durs2, off2 = list(cols)[::-1], list(durs)[::-1], off + 1
